@@ -377,6 +377,22 @@ func (s *Solver) Values(terms []*Term) []uint64 {
 		return res
 	}
 	res := make([]uint64, len(terms))
+	// defining a term after check-sat invalidates the model: define first, re-check
+	fresh := false
+	for _, t := range terms {
+		if !t.isC && !t.sent {
+			s.define(t)
+			fresh = true
+		}
+	}
+	if fresh {
+		if r := s.Check(append([]*Term(nil), s.lastLits...)); r != rSat {
+			panic(engineErr{"solver changed its answer while re-checking for a model"})
+		}
+		if s.lastByFallback {
+			return s.Values(terms)
+		}
+	}
 	for i, t := range terms {
 		if t.isC {
 			res[i] = t.cu
